@@ -165,88 +165,92 @@ pub fn run_generated<S, F, G>(
     let workers = workers.max(1).min(cases.max(1) as usize);
     let per = cases / workers as u64;
     let rem = cases % workers as u64;
-    let merged: Mutex<(Stats, Vec<Violation>)> = Mutex::new((Stats::default(), Vec::new()));
-    // once one worker has a failure (and starts shrinking it), the others stop generating:
-    // a failing tree must not cost 16 independent shrink runs
-    let stop = std::sync::atomic::AtomicBool::new(false);
+    let merged: Mutex<Stats> = Mutex::new(Stats::default());
+    // Pass 1 (detection, no shrinking): every worker runs its share; a worker stops at its own first
+    // failure, and workers with a higher index stop once a lower-indexed worker has failed. The
+    // failure that is reported is the one of the lowest-indexed failing worker - a pure function of
+    // (code, seed, cases, workers), independent of thread timing.
+    let first_fail = std::sync::atomic::AtomicUsize::new(usize::MAX);
+    let seed_of = |wi: usize, name: &str| splitmix(seed ^ splitmix(wi as u64 + 1) ^ splitmix(hash_str(name)));
+    let share = |wi: usize| per + if (wi as u64) < rem { 1 } else { 0 };
+    let config = |wi: usize, name: &str| {
+        let mut cfg = PtConfig::default();
+        cfg.cases = share(wi).min(u32::MAX as u64) as u32;
+        cfg.failure_persistence = None;
+        cfg.rng_seed = RngSeed::Fixed(seed_of(wi, name));
+        cfg.max_shrink_iters = 1500;
+        cfg.max_global_rejects = 0x10000;
+        cfg.verbose = 0;
+        cfg
+    };
     std::thread::scope(|sc| {
         for wi in 0..workers {
-            let n = per + if (wi as u64) < rem { 1 } else { 0 };
-            if n == 0 {
+            if share(wi) == 0 {
                 continue;
             }
             let merged = &merged;
-            let stop = &stop;
+            let first_fail = &first_fail;
             let make_strategy = &make_strategy;
             let check = &check;
-            let signature = &signature;
+            let config = &config;
             let name = section.name.clone();
             sc.spawn(move || {
-                let wseed = splitmix(seed ^ splitmix(wi as u64 + 1) ^ splitmix(hash_str(&name)));
-                let mut cfg = PtConfig::default();
-                cfg.cases = n.min(u32::MAX as u64) as u32;
-                cfg.failure_persistence = None;
-                cfg.rng_seed = RngSeed::Fixed(wseed);
-                cfg.max_shrink_iters = 1500;
-                cfg.max_global_rejects = 0x10000;
-                cfg.verbose = 0;
-                let mut runner = TestRunner::new(cfg);
+                let mut runner = TestRunner::new(config(wi, &name));
                 let strat = make_strategy();
                 let stats = std::cell::RefCell::new(Stats::default());
-                let failed = std::cell::Cell::new(false);
-                let res = runner.run(&strat, |case| {
-                    if !failed.get() && stop.load(std::sync::atomic::Ordering::Relaxed) {
-                        return Ok(()); // another worker is already shrinking a failure
+                let done = std::cell::Cell::new(false);
+                let _ = runner.run(&strat, |case| {
+                    if done.get() || first_fail.load(std::sync::atomic::Ordering::Relaxed) < wi {
+                        done.set(true);
+                        return Ok(());
                     }
                     let mut info = CaseInfo::default();
                     let r = check(&case, &mut info);
-                    if !failed.get() {
-                        stats.borrow_mut().record(&case, &info);
+                    stats.borrow_mut().record(&case, &info);
+                    if r.is_err() {
+                        first_fail.fetch_min(wi, std::sync::atomic::Ordering::Relaxed);
+                        done.set(true);
                     }
-                    match r {
-                        Ok(()) => Ok(()),
-                        Err(e) => {
-                            if !failed.get() && stop.swap(true, std::sync::atomic::Ordering::Relaxed) {
-                                // lost the race: let the first worker report
-                                return Ok(());
-                            }
-                            failed.set(true);
-                            Err(TestCaseError::fail(e))
-                        }
-                    }
+                    Ok(())
                 });
-                let mut viol = Vec::new();
-                match res {
-                    Ok(()) => {}
-                    Err(TestError::Fail(reason, case)) => {
-                        let reason = reason.message().to_string();
-                        // re-run the minimal case for the exact reason
-                        let mut info = CaseInfo::default();
-                        let reason2 = check(&case, &mut info).err().unwrap_or(reason);
-                        let sig = signature(&case, &reason2);
-                        viol.push(Violation {
-                            reason: reason2,
-                            case: serde_json::to_value(&case).unwrap_or(Value::Null),
-                            signature: sig,
-                        });
-                    }
-                    Err(TestError::Abort(r)) => {
-                        viol.push(Violation {
-                            reason: format!("HARNESS-ABORT: {}", r.message()),
-                            case: Value::Null,
-                            signature: "harness-abort".into(),
-                        });
-                    }
-                }
-                let mut g = merged.lock().unwrap();
-                g.0.merge(stats.into_inner());
-                g.1.extend(viol);
+                merged.lock().unwrap().merge(stats.into_inner());
             });
         }
     });
-    let (st, v) = merged.into_inner().unwrap();
-    section.stats.merge(st);
-    section.violations.extend(v);
+    section.stats.merge(merged.into_inner().unwrap());
+    // Pass 2: replay the failing worker's stream alone, this time with shrinking.
+    let wi = first_fail.into_inner();
+    if wi != usize::MAX {
+        let mut runner = TestRunner::new(config(wi, &section.name));
+        let strat = make_strategy();
+        let res = runner.run(&strat, |case| {
+            let mut info = CaseInfo::default();
+            match check(&case, &mut info) {
+                Ok(()) => Ok(()),
+                Err(e) => Err(TestCaseError::fail(e)),
+            }
+        });
+        match res {
+            Ok(()) => section.violations.push(Violation {
+                reason: "HARNESS: a failure seen in the detection pass did not reproduce in the shrinking pass (non-deterministic check)".into(),
+                case: Value::Null,
+                signature: "harness-nondeterministic".into(),
+            }),
+            Err(TestError::Fail(reason, case)) => {
+                let reason = reason.message().to_string();
+                // re-run the minimal case for the exact reason
+                let mut info = CaseInfo::default();
+                let reason2 = check(&case, &mut info).err().unwrap_or(reason);
+                let sig = signature(&case, &reason2);
+                section.violations.push(Violation { reason: reason2, case: serde_json::to_value(&case).unwrap_or(Value::Null), signature: sig });
+            }
+            Err(TestError::Abort(r)) => section.violations.push(Violation {
+                reason: format!("HARNESS-ABORT: {}", r.message()),
+                case: Value::Null,
+                signature: "harness-abort".into(),
+            }),
+        }
+    }
 }
 
 pub fn hash_str(s: &str) -> u64 {
